@@ -91,16 +91,18 @@ pub fn h_pkgpath_segments() {
     if sym::choose("lead", 2) == 1 {
         s.push('/');
     }
-    let n = sym::choose("nseg", sym::bound(5, 6) + 1);
+    let n = sym::choose("nseg", sym::bound(4, 6) + 1);
     let mut i = 0;
     while i < n {
         if i > 0 {
             s.push('/');
         }
-        match sym::choose("seg", 4) {
+        match sym::choose("seg", 6) {
             0 => s.push_str(".."),
             1 => s.push('.'),
-            2 => s.push_str(&sym::any_str("name", "set:a.é", 1, 2)),
+            2 => s.push_str("a"),
+            3 => s.push_str(".a"),
+            4 => s.push_str("é."),
             _ => {}
         }
         i += 1;
